@@ -1,7 +1,7 @@
 (* Tie (c): the definitions translated from the CURRENT source text (Gen/Src.v, tools/py2coq.py)
    are equal to the hand-written model definitions the C05 theorems are about. *)
 From Coq Require Import ZArith List Bool Lia.
-From CV Require Import Base.Val Base.Bytes Base.Bits Base.Tys Base.PyLib Gen.Tables Gen.Src Model.Codec Model.Pdo.
+From CV Require Import Base.Val Base.Bytes Base.Bits Base.Tys Base.PyLib Gen.Tables Gen.SrcC05 Model.Codec Model.Pdo.
 Import ListNotations.
 Open Scope Z_scope.
 
